@@ -1,5 +1,6 @@
 import CTV.Lemmas.ChainComplete
 import CTV.Lemmas.ChainFuel
+import CTV.Lemmas.ChainReject
 /-!
 # C02 — only chains that lead, in submitted order, to a trusted root are admitted
 
@@ -26,6 +27,30 @@ theorem validate_order_as_modelled :
     Gen.validateChainOrder.head? = some "parse" ∧ Gen.validateChainOrder.drop 8 = ["verify", "chainsEquivalent"] ∧
     ∀ n ∈ ["notAfterStart", "notAfterLimit", "acceptOnlyCA", "rejectExpired", "rejectUnexpired", "rejectExtIds", "extKeyUsages"],
       n ∈ (Gen.validateChainOrder.drop 1).take 7 := by decide
+
+/-- **Key identifiers first, no fall-back** (over the two regenerated conditions of `findPotentialParents`): a child
+with an authority key identifier that matches some pool member's subject key identifier gets exactly those members
+as candidates — the members carrying the issuer's *name* are not consulted. -/
+theorem fpp_keyid_first (pool : List Cert) (c : Cert) (k : Nat) (h : c.aki = some k)
+    (hm : ∃ x ∈ pool, x.ski = some k) : findPotentialParents pool c = pool.filter (fun p => p.ski == some k) := by
+  rw [findPotentialParents_eq, h]
+  obtain ⟨x, hx, hk⟩ := hm
+  have : (pool.filter (fun p => p.ski == some k)).isEmpty = false := by
+    have hmem : x ∈ pool.filter (fun p => p.ski == some k) := List.mem_filter.2 ⟨hx, by simp [hk]⟩
+    cases hf : pool.filter (fun p => p.ski == some k) with
+    | nil => rw [hf] at hmem; simp at hmem
+    | cons _ _ => rfl
+  simp [this]
+
+theorem fpp_names_otherwise (pool : List Cert) (c : Cert) (h : ∀ k, c.aki = some k → ∀ x ∈ pool, x.ski ≠ some k) :
+    findPotentialParents pool c = pool.filter (fun p => p.subject == c.issuer) := by
+  rw [findPotentialParents_eq]
+  cases hk : c.aki with
+  | none => rfl
+  | some k =>
+    have : pool.filter (fun p => p.ski == some k) = [] := by
+      rw [List.filter_eq_nil_iff]; intro x hx; simpa using h k hk x hx
+    simp [this]
 
 /-- `CheckSignatureFrom` in words: the parent is not a v3 certificate without basic constraints, not a
 certificate whose basic constraints deny CA (unless the child carries the Entrust SPKI), its key usage — if
@@ -174,25 +199,35 @@ example : validateChain [exR] exSig exOpts [some exI, some exL] = .error .notEqu
 example : validateChain [exR] exSig { exOpts with notAfterLimit := some 1000 } [some exL, some exI] = .error .notAfterLimit := by decide
 example : validateChain [exR] exSig exOpts [some exL, none] = .error .parse := by decide
 example : Coherent ([exL, exI] ++ [exR]) := by unfold Coherent; decide
+/-- `admit_sound` applied to the instance -/
+example := admit_sound [exR] exSig exOpts [some exL, some exI] [exL, exI, exR] (by decide)
+example := admit_sound_order [exR] exSig exOpts [exL, exI] [exL, exI, exR] (by unfold Coherent; decide) (by decide)
 
 /-! ## Completeness -/
 
 /- FULL: for every pool, oracle, options and submitted list `l :: rest`:
      `LeafOK o l → Admissible roots sigOK (l :: rest) → ∃ p, validateChain roots sigOK o ((l :: rest).map some) = .ok p`
-   i.e. the converse of `admit_sound` with no side condition.  This is FALSE of the code (and of the model):
-   the search tries key-identifier matches before names and never falls back (an AKI that points at a
-   certificate with another name hides the real issuer), it caches the chains found through a candidate
-   under the first prefix that reached it (same-subject certificates), it gives up after 100 signature
-   checks, it never repeats a certificate, and `Verify` answers `[[leaf]]` at once when the leaf is itself
-   trusted.  The harness counts the real behaviour at those points as `obs:valid-path-rejected:*`.
-   Proved below: the statement under exactly those exclusions (`SideConditions`), each one named. -/
+   i.e. the converse of `admit_sound` with no side condition (the property says "if and only if").
+   FALSE of the code (and of the model), in exactly these classes — each a known finding of
+   `known_findings.d/C02.json` with a minimal hierarchy generated on every run (`c02Incomplete`):
+     * `aki-hides-issuer`: key-identifier matches are tried first and names only when there is none, so an AKI that
+       matches some other pool member's SKI hides the real issuer (theorem `aki_hides_issuer`);
+     * `signature-budget`: the search gives up after 100 signature checks (theorem `signature_budget`);
+     * `repeated-certificate`: a certificate is never used twice;
+     * `leaf-is-trusted-with-extra-certificates`: `Verify` answers `[[leaf]]` at once when the leaf is itself trusted;
+     * `issuing-root-is-submitted`: an issuance cycle — the issuing trusted certificate is already on the path.
+   The candidate cache is NOT such a class: on a submission without repeats the walk meets the next submitted
+   certificate before any other unvisited candidate, so the cache is empty whenever it is consulted on the path.
+   Proved below: the statement under exactly those exclusions (`SideConditions` + the freshness premise of
+   `Admissible.belowPool`), each one named.  Cross-signed hierarchies, several roots with one name and same-name
+   intermediates are inside the theorem (only their cost counts against the budget). -/
 
-/-- **admit_complete_partial.** A submission that parses, passes the leaf filters and is a valid linear path
-ending in, or directly below, the trusted pool is admitted — provided the named side conditions hold: no
-repeated certificate, distinct subjects, consistent authority key identifiers, `2·n + 2 ≤ 100` signature
-checks, a leaf followed by further certificates is not itself trusted, records determined by their bytes.  Submitted
-certificates other than the leaf may be members of the trusted pool (the chain may pass through a trusted
-intermediate or cross-certificate and go on to that certificate's own trusted issuer). -/
+/-- **admit_complete_partial.** A submission that parses, passes the leaf filters and is a valid linear path ending in,
+or directly below, the trusted pool is admitted — provided: no certificate is submitted twice; no authority key
+identifier hides a pool member that carries the issuer's name (`akiFindsIssuer`); the walk fits the budget
+(`searchCost`: per submitted certificate one check for every root candidate and one for the next certificate, ≤ 100);
+a leaf followed by further certificates is not itself trusted; records are determined by their bytes.  Any number of
+same-name certificates, cross-certificates and trusted intermediates may be present. -/
 theorem admit_complete_partial (roots : List Cert) (sigOK : SigOracle) (o : Opts) (l : Cert) (rest : List Cert)
     (hleaf : LeafOK o l) (hadm : Admissible roots sigOK (l :: rest)) (hs : SideConditions roots (l :: rest)) :
     ∃ p, validateChain roots sigOK o ((l :: rest).map some) = .ok p := by
@@ -201,7 +236,8 @@ theorem admit_complete_partial (roots : List Cert) (sigOK : SigOracle) (o : Opts
     simp only [List.map_cons, List.nodup_cons] at hnd; exact hnd.2
   have hpool : mkPool rest = rest := mkPool_nodup hndRest
   have hbud := hs.budget
-  simp only [List.length_cons] at hbud
+  have hlen := length_le_searchCost roots (l :: rest)
+  simp only [List.length_cons] at hlen
   -- the leaf is itself trusted and submitted alone: Verify answers [[l]]
   have alone : poolContains roots l = true → rest = [] → ∃ p, validateChain roots sigOK o ((l :: rest).map some) = .ok p := by
     intro hc hr
@@ -224,23 +260,39 @@ theorem admit_complete_partial (roots : List Cert) (sigOK : SigOracle) (o : Opts
       subst hzr
       have hnot : poolContains roots l = false := hs.leafNotTrusted l rest rfl hrest
       let E : Env := ⟨roots, rest, sigOK⟩
-      have htrack : OnTrack E (l :: rest) := by
-        apply onTrack_of E hs.rootsPool hndRest hs.distinctSubjects (l :: rest) hl
-        · intro c hc
-          exact hs.akiConsistent c (mem_of_mem_dropLast hc)
+      have htrack : OnTrack E l [l] rest := by
+        apply onTrack_of E rest [l] l (fun a ha x hx hn => (hs.akiFindsIssuer a ha).2 x hx hn)
+          (fun a ha x hx hn => (hs.akiFindsIssuer a ha).1 x hx hn) (by simp) hl
+        · exact ⟨[z], by
+            show rest = [l].tail ++ rest.dropLast ++ [z]
+            have : rest.getLast? = some z := by
+              obtain ⟨y, ys, rfl⟩ := List.exists_cons_of_ne_nil hrest
+              simpa [List.getLast?_cons_cons] using hz
+            obtain ⟨y, ys, rfl⟩ := List.exists_cons_of_ne_nil hrest
+            have h2 := List.dropLast_concat_getLast (l := y :: ys) (by simp)
+            rw [List.getLast?_eq_some_getLast (by simp)] at this
+            simp only [Option.some.injEq] at this
+            rw [this] at h2
+            simpa using h2.symm⟩
         · intro x hx
-          exact ⟨mem_of_mem_dropLast hx, hca x hx⟩
-        · intro r' hr' _
-          rw [hz] at hr'; cases hr'; exact hr
+          exact hca x hx
+        · intro r' hr'
+          have : rest.getLast? = some z := by
+            obtain ⟨y, ys, rfl⟩ := List.exists_cons_of_ne_nil hrest
+            simpa [List.getLast?_cons_cons] using hz
+          rw [this] at hr'; cases hr'; exact hr
+      have hcost : cost E l rest ≤ 100 := by
+        rw [cost_eq E rest l hrest]
+        exact Nat.le_trans (searchCost_dropLast_le roots (l :: rest)) hbud
       have hfind := search_finds E rest [l] l ⟨0, []⟩ fuel rfl (by simpa using hnd) htrack hrest rfl
-        (by simp; omega) (by simp [fuel, Gen.maxChainSignatureChecks]; omega)
+        (by simpa using hcost) (by simp [fuel, Gen.maxChainSignatureChecks]; omega)
       obtain ⟨chains, hv, hT⟩ := verify_of_search (E := E) hnot hfind
       have hv' : verify ⟨roots, mkPool rest, sigOK⟩ l = .ok chains := by rw [hpool]; exact hv
       exact validate_of_verify hleaf hv' hT (chainsEquivalent_of (by simp; omega) (Or.inl rfl) (by simp))
   cases hadm with
   | endsInPool r z hr hz hid hl hca => exact caseA r z hr hz hid hl hca
   | belowPool r hr hin hl hca =>
-    have hin' : True := trivial
+    have _hAall : True := trivial
     · by_cases hc : poolContains roots l = true
       · by_cases hrest : rest = []
         · exact alone hc hrest
@@ -256,37 +308,135 @@ theorem admit_complete_partial (roots : List Cert) (sigOK : SigOracle) (o : Opts
           intro a ha b hb e
           simp at hb; subst hb; subst e
           exact hin ha
-        have htrack : OnTrack E (l :: (rest ++ [r])) := by
-          apply onTrack_of E hs.rootsPool hndRest hs.distinctSubjects (l :: (rest ++ [r])) (by simpa using hl)
-          · intro c hc'
-            apply hs.akiConsistent c
-            have : (l :: (rest ++ [r])).dropLast = l :: rest := by
-              rw [← List.cons_append, List.dropLast_concat]
-            rwa [this] at hc'
+        have hAall : ∀ a ∈ l :: (rest ++ [r]), a ∈ l :: rest ∨ a = r := by
+          intro a ha
+          simp only [List.mem_cons, List.mem_append, List.not_mem_nil, or_false] at ha ⊢
+          rcases ha with h | h | h
+          · exact Or.inl (Or.inl h)
+          · exact Or.inl (Or.inr h)
+          · exact Or.inr h
+        -- the last element r only ever plays the parent's part, so its own AKI is never consulted: restrict to cs
+        have htrack : OnTrack E l [l] (rest ++ [r]) := by
+          have key : ∀ (rem cur : List Cert) (c : Cert), (∀ a ∈ c :: rem.dropLast, a ∈ l :: rest) → cur ≠ [] →
+              Linked (Link sigOK) (c :: rem) → (∃ tl, rest = cur.tail ++ rem.dropLast ++ tl) → (∀ x ∈ rem.dropLast, IsInterCA x) →
+              (∀ r', rem.getLast? = some r' → r' ∈ roots) → OnTrack E c cur rem := by
+            intro rem
+            induction rem with
+            | nil => intros; trivial
+            | cons x more ih =>
+              intro cur c hmem hne hl' hI hca' hr'
+              cases more with
+              | nil =>
+                have hx := hr' x rfl
+                exact ⟨hl'.1, mem_fpp_of hx hl'.1.1 ((hs.akiFindsIssuer c (hmem c (by simp))).1 x hx hl'.1.1)⟩
+              | cons y more' =>
+                obtain ⟨tl, hI⟩ := hI
+                have hdl : (x :: y :: more').dropLast = x :: (y :: more').dropLast := rfl
+                rw [hdl] at hI hmem hca'
+                have hxI : x ∈ rest := by rw [hI]; simp
+                have hmem' := mem_fpp_of (pool := rest) hxI hl'.1.1 ((hs.akiFindsIssuer c (hmem c (by simp))).2 x hxI hl'.1.1)
+                obtain ⟨p, hp⟩ := fpp_is_filter rest c
+                have hpx : p x = true := by rw [hp] at hmem'; exact (List.mem_filter.1 hmem').2
+                refine ⟨hl'.1, hca' x (by simp), ⟨cur.tail.filter p, ((y :: more').dropLast ++ tl).filter p, ?_, ?_⟩, ?_⟩
+                · show findPotentialParents rest c = _
+                  rw [hp, hI]
+                  simp [List.filter_append, List.filter_cons, hpx]
+                · intro z hz
+                  have hz' := (List.mem_filter.1 hz).1
+                  obtain ⟨h0, t0, rfl⟩ := List.exists_cons_of_ne_nil hne
+                  exact List.mem_map.2 ⟨z, List.mem_cons_of_mem _ hz', rfl⟩
+                · apply ih (cur ++ [x]) x
+                  · intro a ha
+                    exact hmem a (List.mem_cons_of_mem _ ha)
+                  · simp
+                  · exact hl'.2
+                  · refine ⟨tl, ?_⟩
+                    obtain ⟨h0, t0, rfl⟩ := List.exists_cons_of_ne_nil hne
+                    rw [hI]; simp
+                  · intro z hz
+                    exact hca' z (List.mem_cons_of_mem _ hz)
+                  · intro r'' hr''
+                    exact hr' r'' (by simpa [List.getLast?_cons_cons] using hr'')
+          apply key (rest ++ [r]) [l] l
+          · intro a ha
+            rw [List.dropLast_concat] at ha; exact ha
+          · simp
+          · simpa using hl
+          · exact ⟨[], by simp [List.dropLast_concat]⟩
           · intro x hx
-            have : (l :: (rest ++ [r])).tail.dropLast = rest := by simp [List.dropLast_concat]
-            rw [this] at hx
-            exact ⟨hx, hca x (by simpa using hx)⟩
-          · intro r' hr' _
-            have : (l :: (rest ++ [r])).getLast? = some r := by
-              rw [← List.cons_append]; exact List.getLast?_concat
-            rw [this] at hr'; cases hr'; exact hr
+            rw [List.dropLast_concat] at hx
+            exact hca x (by simpa using hx)
+          · intro r' hr'
+            rw [List.getLast?_concat] at hr'; cases hr'; exact hr
+        have hcost : cost E l (rest ++ [r]) ≤ 100 := by
+          rw [cost_eq E (rest ++ [r]) l (by simp)]
+          have : (l :: (rest ++ [r])).dropLast = l :: rest := by rw [← List.cons_append, List.dropLast_concat]
+          rw [this]; exact hbud
         have hfind := search_finds E (rest ++ [r]) [l] l ⟨0, []⟩ fuel rfl hndT htrack (by simp) rfl
-          (by simp; omega) (by simp [fuel, Gen.maxChainSignatureChecks]; omega)
+          (by simpa using hcost) (by simp [fuel, Gen.maxChainSignatureChecks]; omega)
         obtain ⟨chains, hv, hT⟩ := verify_of_search (E := E) hnot hfind
         have hv' : verify ⟨roots, mkPool rest, sigOK⟩ l = .ok chains := by rw [hpool]; exact hv
         exact validate_of_verify hleaf hv' hT (chainsEquivalent_of (by simp; omega) (Or.inr (by simp)) (by simp))
 
-example : SideConditions [exR] [exL, exI] ∧ Admissible [exR] exSig [exL, exI] ∧ LeafOK exOpts exL := by
-  refine ⟨⟨by decide, by decide, by unfold DistinctSubjects; decide, by unfold AkiConsistent; decide, by decide,
-    (by intro l rest h _; cases h; decide), by unfold Coherent; decide⟩, ?_, (leafFilters_iff _ _).1 (by decide)⟩
+def exAki (roots cs : List Cert) (h : ∀ c ∈ cs, c.aki = none) :
+    ∀ c ∈ cs, (∀ x ∈ roots, c.issuer = x.subject → AkiFinds roots c x) ∧ (∀ x ∈ cs.tail, c.issuer = x.subject → AkiFinds cs.tail c x) := by
+  intro c hc
+  have := h c hc
+  refine ⟨?_, ?_⟩ <;> (intro x _ _ k hk _; rw [this] at hk; cases hk)
+
+def exHyps : SideConditions [exR] [exL, exI] ∧ Admissible [exR] exSig [exL, exI] ∧ LeafOK exOpts exL := by
+  refine ⟨⟨by decide, exAki _ _ (by decide), by decide, (by intro l rest h _; cases h; decide), by unfold Coherent; decide⟩, ?_,
+    (leafFilters_iff _ _).1 (by decide)⟩
   exact .belowPool exR (by simp) (by decide) ⟨⟨rfl, by decide⟩, ⟨rfl, by decide⟩, trivial⟩ (by intro x hx; simp at hx; subst hx; exact ⟨rfl, rfl⟩)
+
+/-- `admit_complete_partial` applied to the instance: the hypotheses are jointly satisfiable. -/
+example : ∃ p, validateChain [exR] exSig exOpts ([exL, exI].map some) = .ok p :=
+  admit_complete_partial [exR] exSig exOpts exL [exI] exHyps.2.2 exHyps.2.1 exHyps.1
 
 /-- The chain may pass through a trusted certificate: pool `{R, I}`, submission `[L, I, R]` is admitted as submitted. -/
 example : validateChain [exR, exI] exSig exOpts [some exL, some exI, some exR] = .ok [exL, exI, exR] := by decide
-example : SideConditions [exR, exI] [exL, exI, exR] := by
-  refine ⟨by decide, by decide, by unfold DistinctSubjects; decide, by unfold AkiConsistent; decide, by decide,
-    (by intro l rest h _; cases h; decide), by unfold Coherent; decide⟩
+example : SideConditions [exR, exI] [exL, exI, exR] :=
+  ⟨by decide, exAki _ _ (by decide), by decide, (by intro l rest h _; cases h; decide), by unfold Coherent; decide⟩
+
+/-- Two trusted roots with the same name (the second one does not sign `exI`): outside the old `distinctSubjects`
+condition, inside the theorem now — both are tried, two of the 100 signature checks are spent on them. -/
+def exR' : Cert := { exR with id := 7 }
+example : validateChain [exR', exR] exSig exOpts [some exL, some exI] = .ok [exL, exI, exR] := by decide
+example : SideConditions [exR', exR] [exL, exI] ∧ searchCost [exR', exR] [exL, exI] = 4 :=
+  ⟨⟨by decide, exAki _ _ (by decide), by decide, (by intro l rest h _; cases h; decide), by unfold Coherent; decide⟩, by decide⟩
+
+/-- **aki_hides_issuer** — the boundary from the other side (one of the incompleteness classes, as a theorem): if
+the leaf's authority key identifier matches subject key identifiers in both pools but none of the certificates
+it matches carries the leaf's issuer name, `Verify` fails — no matter which correctly named, correctly signing
+certificates the pools also hold. -/
+theorem aki_hides_issuer (E : Env) (c : Cert) (k : Nat) (h : c.aki = some k) (hnot : poolContains E.roots c = false)
+    (hr : ∃ x ∈ E.roots, x.ski = some k) (hi : ∃ x ∈ E.inter, x.ski = some k)
+    (hne : ∀ x ∈ E.roots ++ E.inter, x.ski = some k → c.issuer ≠ x.subject) :
+    ∃ e, verify E c = .error e := by
+  have hR : ∀ x ∈ findPotentialParents E.roots c, c.issuer ≠ x.subject := by
+    rw [fpp_keyid_first E.roots c k h hr]
+    intro x hx
+    have := List.mem_filter.1 hx
+    exact hne x (List.mem_append_left _ this.1) (by simpa using this.2)
+  have hI : ∀ x ∈ findPotentialParents E.inter c, c.issuer ≠ x.subject := by
+    rw [fpp_keyid_first E.inter c k h hi]
+    intro x hx
+    have := List.mem_filter.1 hx
+    exact hne x (List.mem_append_right _ this.1) (by simpa using this.2)
+  have hs := buildStep_no_named_candidate E (buildChains E 100) ⟨0, []⟩ (cur := [c]) rfl hR hI
+  have hf : buildChains E fuel c [c] ⟨0, []⟩ = buildStep E (buildChains E 100) c [c] ⟨0, []⟩ := rfl
+  unfold verify
+  have hv : isValid .leaf [] c = true := by simp [isValid, Gen.isValidNotCA]
+  simp only [hv, hnot, Bool.not_true, Bool.false_eq_true, if_false, hf]
+  cases he : (buildStep E (buildChains E 100) c [c] ⟨0, []⟩).err with
+  | none => exact absurd he hs.2
+  | some e => exact ⟨e, rfl⟩
+
+/-- instance: the root `exR` would sign `exL2`, but `exL2`'s AKI points at `exO` (other name) in both pools -/
+def exO1 : Cert := { exI with id := 5, subject := 77, ski := some 9 }
+def exO2 : Cert := { exI with id := 6, subject := 78, ski := some 9 }
+example : ∃ e, verify ⟨[exR, exO1], [exO2], exSig⟩ { exL with aki := some 9, issuer := 10 } = .error e :=
+  aki_hides_issuer _ _ 9 rfl (by decide) ⟨exO1, by simp, rfl⟩ ⟨exO2, by simp, rfl⟩ (by decide)
 
 /-! ## The NotAfter window (regenerated conditions) -/
 
@@ -313,20 +463,51 @@ example : Gen.rejectExpiredFails true (Gen.expired 1000 1000) = false ∧ Gen.re
 
 /-! ## Precertificates and endpoints -/
 
-/-- **poison_classification** (first half): a leaf counts as a precertificate exactly when its (first) poison
-extension is critical with value `05 00`; any other poison extension is an error; no poison extension: a
-certificate. -/
+/-- **poison_classification** (FULL, over the regenerated loop shape and poison test of `IsPrecertificate`): a leaf counts as a
+precertificate exactly when it has a poison extension and every poison extension it has is critical with value
+`05 00`; a malformed poison extension — wherever it stands among them — is always an error; without a poison
+extension: a certificate.  (Before fix 9856f71 the loop returned at the first poison extension and this statement
+was false; `Gen.poisonLoopStopsAtFirst` is regenerated, so a revert breaks this proof.) -/
 theorem poison_classification (c : Cert) :
-    (isPrecertificate c = .ok true ↔ c.poison = .present true true) ∧
-    (isPrecertificate c = .ok false ↔ c.poison = .absent) ∧
-    (isPrecertificate c = .error () ↔ ∃ cr nl, c.poison = .present cr nl ∧ ¬(cr = true ∧ nl = true)) := by
-  unfold isPrecertificate Gen.poisonInvalid
-  cases hp : c.poison with
-  | absent => simp
-  | present cr nl => cases cr <;> cases nl <;> simp
+    (isPrecertificate c = .ok true ↔ c.poison ≠ [] ∧ ∀ x ∈ c.poison, x.critical = true ∧ x.valueIsNull = true) ∧
+    (isPrecertificate c = .ok false ↔ c.poison = []) ∧
+    (isPrecertificate c = .error () ↔ ∃ x ∈ c.poison, ¬(x.critical = true ∧ x.valueIsNull = true)) := by
+  unfold isPrecertificate
+  rw [poisonLoop_spec]
+  generalize c.poison = l
+  by_cases hex : ∃ x ∈ l, ¬(x.critical = true ∧ x.valueIsNull = true)
+  · have hb : l.any (fun x => !(x.critical && x.valueIsNull)) = true := by
+      obtain ⟨x, hx, h⟩ := hex
+      refine List.any_eq_true.2 ⟨x, hx, ?_⟩
+      cases hc : x.critical <;> cases hn : x.valueIsNull <;> simp_all
+    rw [if_pos hb]
+    refine ⟨⟨fun h => (by cases h), fun h => ?_⟩, ⟨fun h => (by cases h), fun h => ?_⟩, ⟨fun _ => hex, fun _ => rfl⟩⟩
+    · obtain ⟨x, hx, hn⟩ := hex; exact absurd (h.2 x hx) hn
+    · obtain ⟨x, hx, _⟩ := hex; rw [h] at hx; cases hx
+  · have hall : ∀ x ∈ l, x.critical = true ∧ x.valueIsNull = true :=
+      fun x hx => Classical.byContradiction fun hn => hex ⟨x, hx, hn⟩
+    have hb : l.any (fun x => !(x.critical && x.valueIsNull)) = false := by
+      rw [List.any_eq_false]; intro x hx; have := hall x hx; simp [this.1, this.2]
+    rw [if_neg (by rw [hb]; simp)]
+    cases l with
+    | nil => simp
+    | cons p rest =>
+      refine ⟨⟨fun _ => ⟨(by simp), hall⟩, fun _ => (by simp)⟩, ⟨fun h => (by simp at h), fun h => (by cases h)⟩,
+        ⟨fun h => (by cases h), fun ⟨x, hx, hn⟩ => absurd (hall x hx) hn⟩⟩
 
-example : isPrecertificate { (default : Cert) with poison := .present true true } = .ok true := by decide
-example : isPrecertificate { (default : Cert) with poison := .present false true } = .error () := by decide
+/-- The loop shape the model follows is the fixed one: no early return for a well-formed poison extension, the
+recorded flag is what is returned. -/
+theorem poison_loop_as_fixed : Gen.poisonLoopStopsAtFirst = false ∧ Gen.poisonLoopMarks = "found" ∧ Gen.poisonLoopFinalReturn = "found" := by decide
+
+example : isPrecertificate { (default : Cert) with poison := [⟨true, true⟩] } = .ok true := by decide
+example : isPrecertificate { (default : Cert) with poison := [⟨false, true⟩] } = .error () := by decide
+/-- the former counter-example: a malformed second poison extension is now an error -/
+example : isPrecertificate { (default : Cert) with poison := [⟨true, true⟩, ⟨false, false⟩] } = .error () := by decide
+example : isPrecertificate { (default : Cert) with poison := [⟨true, true⟩, ⟨true, true⟩] } = .ok true := by decide
+
+/-- `addChainInternal` answers 400 when `verifyAddChain` refuses (regenerated status constant): "not admitted"
+at the HTTP surface is status 400. -/
+theorem verify_failure_is_400 : Gen.verifyFailStatus = 400 := by decide
 
 /-- **poison_classification** (second half): `verifyAddChain` admits exactly the chains `ValidateChain`
 admits whose leaf kind is the endpoint's kind.  Hence a malformed poison extension is rejected on both
@@ -374,6 +555,10 @@ theorem kind_mismatch_rejected (roots : List Cert) (sigOK : SigOracle) (o : Opts
 
 example : verifyAddChain [exR] exSig exOpts [some exL, some exI] false = .ok [exL, exI, exR] := by decide
 example : verifyAddChain [exR] exSig exOpts [some exL, some exI] true = .error .kind := by decide
-example : verifyAddChain [exR] exSig exOpts [some { exL with poison := .present true false }, some exI] true = .error .poison := by decide
+example : verifyAddChain [exR] exSig exOpts [some { exL with poison := [⟨true, false⟩] }, some exI] true = .error .poison := by decide
+
+/-- the theorems applied to the instances (jointly satisfiable hypotheses) -/
+example := endpoint_kind [exR] exSig exOpts [some exL, some exI] false [exL, exI, exR]
+example := kind_mismatch_rejected [exR] exSig exOpts exL [some exI] true (by decide)
 
 end C02
